@@ -1,4 +1,6 @@
-Require Import VT.Tac VT.Vte VT.Screen VT.Perform VT.Parser VT.VteInv VT.VteChunk VT.Chunking VT.Props.C04.
+(* Pins for C04: restated statements + assumptions. Generated once by tools/mkpins.py, then committed. *)
+Require Import VT.Tac VT.Vte VT.Screen VT.Perform VT.Parser VT.VteInv VT.VteChunk VT.Chunking.
+Require Import VT.Props.C04.
 Open Scope N_scope.
 Check C04_main : forall p cs1 cs2,
   pwf (vt p) -> concat cs1 = concat cs2 -> clean (vt p) cs1 -> clean (vt p) cs2 ->
